@@ -1,12 +1,12 @@
 """C06 — SQL rendered through SQLAlchemy means the same as the parsed statement."""
-import collections, json, os, re, sqlite3, warnings
+import collections, itertools, json, os, re, sqlite3, warnings
 from tools.harness import common
 from tools.harness import sqlexec as X
 
 ID = 'C06'
 TARGETS = ['MindsVerif.Props.C06']
 THEOREMS = ['MindsVerif.Props.C06.' + n for n in (
-    'C06_partial', 'C06_partial_norm', 'C06_nested_partial', 'C06_dml_partial', 'C06_join_kind', 'C06_join_spelling', 'C06_not_rewrite',
+    'C06_partial', 'C06_partial_norm', 'C06_nested_partial', 'C06_ddl_column', 'C06_ddl_contents', 'C06_dml_partial', 'C06_join_kind', 'C06_join_spelling', 'C06_not_rewrite',
     'C06_order_key', 'C06_alias', 'C06_window_key', 'C06_grouping', 'C06_regroup_harmless',
     'C06_regress_1', 'C06_regress_2', 'C06_regress_3', 'C06_regress_4', 'C06_regress_5', 'C06_regress_5b', 'C06_regress_6',
     'C06_regress_7', 'C06_regress_9', 'C06_witness_8',
@@ -494,6 +494,24 @@ def g_sql(t):
     return '(%s BETWEEN %s AND %s)' % tuple(g_sql(x) for x in t[1:])
 
 
+def sig_create_if_not_exists(f, ast):
+    from mindsdb_sql.parser import ast as A
+    return isinstance(ast, A.CreateTable) and bool(ast.if_not_exists) and not f.get('fallback') and \
+        f['kind'] == 'rendered-text-fails' and 'already exists' in f.get('error', '')
+
+
+def sig_fallback_create_pk(f, ast):
+    from mindsdb_sql.parser import ast as A
+    return isinstance(ast, A.CreateTable) and bool(f.get('fallback')) and f['kind'] == 'tables-differ' and \
+        any(c.is_primary_key for c in (ast.columns or []))
+
+
+def sig_offset_without_limit(f, ast):
+    from mindsdb_sql.parser import ast as A
+    return f['kind'] == 'unbound-parameter' and \
+        any(isinstance(n, A.Select) and n.offset is not None and n.limit is None for n in ast_nodes(ast))
+
+
 def sig_window_nulls(f, ast):
     from mindsdb_sql.parser import ast as A
     return f['kind'] in ('rows-differ',) and any(
@@ -517,6 +535,7 @@ REPAIRS = collections.OrderedDict([
 SIGS = collections.OrderedDict([
     ('between-alias', sig_between_alias), ('setop-nesting', sig_setop_nesting), ('between-bounds', sig_between_bounds),
     ('concat-precedence', sig_concat), ('window-nulls', sig_window_nulls),
+    ('offset-without-limit', sig_offset_without_limit), ('create-if-not-exists', sig_create_if_not_exists), ('fallback-create-pk', sig_fallback_create_pk),
 ])
 
 
@@ -589,7 +608,11 @@ class Prober:
             if d != 'sqlite':
                 rend = rend.replace('`', '"')
             chk.count((d, orig))
-            diff = self.differs(case, orig, rend)
+            # oracle clause: the rendered text is complete SQL -- no bind placeholder may be left in it
+            if re.search(r':param_\d+', rend) and ':param_' not in orig:
+                diff = dict(kind='unbound-parameter', error='placeholder left in the rendered text', db=self.dbs[0].content)
+            else:
+                diff = self.differs(case, orig, rend)
             if diff == 'skip':
                 self.stats['orig-not-executable'] += 1
                 continue
@@ -602,8 +625,13 @@ class Prober:
             if fallback and diff['kind'] == 'rendered-text-fails':
                 self.stats['fallback-text-not-sqlite'] += 1   # the AST printer's dialect, not a rendering (C17 / C01)
                 continue
+            diff['fallback'] = fallback
             if fallback:
                 self.stats['fallback-differs'] += 1
+            if d != 'sqlite' and 'SERIAL' in rend.upper():
+                # postgres: sqlalchemy turns a single integer key into BIGSERIAL, a type sqlite does not know
+                self.stats['not-common-subset:' + d] += 1
+                continue
             if d != 'sqlite' and diff['kind'] == 'rendered-text-fails':
                 self.stats['not-common-subset:' + d] += 1    # sqlite cannot run this mysql/postgres text
                 continue
@@ -634,7 +662,7 @@ def kf_cases():
     for k in src:
         w = k.get('witness') or {}
         if w.get('text'):
-            out.append(dict(kind=w.get('kind', 'select'), text=w['text'], ordered=w.get('ordered', False), alias=w.get('alias', []), order_keys=w.get('order_keys'),
+            out.append(dict(kind=w.get('kind', 'select'), text=w['text'], ordered=w.get('ordered', False), alias=w.get('alias', []), order_keys=w.get('order_keys'), dialect=w.get('dialect'),
                             feats=['kf-witness:' + k['id']], ast=w.get('ast')))
     return out
 
@@ -686,6 +714,12 @@ def run(chk):
          [('b', o, ('b', i, ('a', 0), ('a', 1)), ('a', 2)) for o in G_BIN for i in G_BIN] + \
          [gen_g(grng, grng.randint(2, 4)) for _ in range(6000 if deep else 800)]
     lines += ['G ' + g_line(t) for t in gl]
+    jj = [(s1, s2) for s1 in sorted(side['join_spellings']) for s2 in sorted(side['join_spellings'])]
+    lines += ['JJ %s | %s' % x for x in jj]
+    dl = [(pk, nl, se) for pk in (0, 1) for nl in ('n', 't', 'f') for se in (0, 1)]
+    lines += ['D %d %s %d' % x for x in dl]
+    cl = list(itertools.product((0, 1), repeat=6))
+    lines += ['C ' + ' '.join(map(str, x)) for x in cl]
     outs = None
     try:
         outs = common.lean_run('Render', lines)
@@ -709,7 +743,9 @@ def run(chk):
             elif got != parts[0]:
                 div += 1
                 first = first or dict(tree=expr_line(t), model=parts[0], impl=got)
-                continue
+                if not isinstance(r, str) or ' WHERE ' not in r or div > 40:
+                    continue
+                # (still executed below: a diverging text that also changes the value gives the concrete failing input)
             # validation of the model's verdict (and of the trusted engine table) by execution
             good = fl['ok'] == '1' and fl['saok'] == '1' and fl['regroup'] == '1'
             if src == 'exh' or deep or dist['expr/evaluated-rnd'] < 1200:
@@ -844,6 +880,68 @@ def run(chk):
                     f['kf'] = None
                 chk.fail(f)
         chk.corr_result('render-optree', len(gl), div, first, dict(gd))
+        base += len(gl)
+        # chains of two explicit joins: every pair of join_type strings (the mapping must not depend on the joins before)
+        div, first = 0, None
+        for (s1, s2), o in zip(jj, outs[base:]):
+            q = A.Select(targets=[A.Star()], from_table=A.Join(
+                join_type=s2, right=A.Identifier('v'), condition=A.BinaryOperation('=', args=[A.Identifier('u.a'), A.Identifier('v.a')]),
+                left=A.Join(join_type=s1, left=A.Identifier('t'), right=A.Identifier('u'),
+                            condition=A.BinaryOperation('=', args=[A.Identifier('t.a'), A.Identifier('u.a')]))))
+            r = render(R, q)
+            if isinstance(r, str):
+                m = re.search(r'FROM t (.*?) u ON t.a = u.a (.*?) v ON', r)
+                got = '%s | %s' % (m.group(1), m.group(2)) if m else r
+            else:
+                got = '!' + str(r[1]).split(':')[0]
+            if got != o.strip():
+                div += 1
+                first = first or dict(join_types=[s1, s2], model=o.strip(), impl=got)
+        chk.corr_result('render-join-chain', len(jj), div, first)
+        base += len(jj)
+        # CREATE TABLE column declarations: NOT NULL / key membership printed for every (key, nullable, serial) combination
+        div, first = 0, None
+        for (pk, nl, se), o in zip(dl, outs[base:]):
+            col = A.TableColumn(name='p', type='serial' if se else 'INT', is_primary_key=bool(pk),
+                                nullable={'n': None, 't': True, 'f': False}[nl])
+            r = render(R, A.CreateTable(name=A.Identifier('w'), columns=[A.TableColumn(name='z', type='TEXT'), col]))
+            if isinstance(r, str):
+                m = re.search(r'\bp \w+( NOT NULL)?', r)
+                got = 'notnull=%d pk=%d' % (1 if m and m.group(1) else 0, 1 if re.search(r'PRIMARY KEY \(p\)', r) else 0)
+            else:
+                got = str(r)
+            if got != o.strip():
+                div += 1
+                first = first or dict(column=dict(pk=pk, nullable=nl, serial=se), model=o.strip(), impl=got, rendered=r)
+        chk.corr_result('render-ddl-column', len(dl), div, first)
+        base += len(dl)
+        # clause skeleton of an aggregate SELECT: every combination of WHERE / GROUP BY / HAVING / ORDER BY / LIMIT / OFFSET
+        div, first = 0, None
+        for bits, o in zip(cl, outs[base:]):
+            w, g, h, od, li, of = bits
+            cnt = A.Function('count', args=[A.Star()])
+            q = A.Select(targets=[cnt], from_table=A.Identifier('t'),
+                         where=A.BinaryOperation('=', args=[A.Identifier('a'), A.Constant(1)]) if w else None,
+                         group_by=[A.Identifier('a')] if g else None,
+                         having=A.BinaryOperation('>', args=[A.Function('count', args=[A.Star()]), A.Constant(1)]) if h else None,
+                         order_by=[A.OrderBy(field=A.Identifier('a'))] if od else None,
+                         limit=A.Constant(1) if li else None, offset=A.Constant(1) if of else None)
+            r = render(R, q)
+            if isinstance(r, str):
+                got = 'where=%d group=%d having=%d order=%d limit=%d offset=%d' % tuple(
+                    int(k in r) for k in (' WHERE ', ' GROUP BY ', ' HAVING ', ' ORDER BY ', ' LIMIT ', ' OFFSET '))
+                # sqlite needs a LIMIT to carry an OFFSET: sqlalchemy prints `LIMIT -1 OFFSET n`
+                if of and not li and (' LIMIT -1 ' in r or ' LIMIT :param_' in r):
+                    got = got.replace('limit=1', 'limit=0')     # (the :param_ form is KF-C06-19)
+                if li and not of and r.endswith(' OFFSET 0'):
+                    got = got.replace('offset=1', 'offset=0')   # the sqlite compiler always completes LIMIT n with OFFSET 0
+            else:
+                got = str(r)
+            if got != o.strip():
+                div += 1
+                first = first or dict(clauses=dict(zip(('where', 'group_by', 'having', 'order_by', 'limit', 'offset'), bits)),
+                                      model=o.strip(), impl=got, rendered=r)
+        chk.corr_result('render-select-skeleton', len(cl), div, first)
 
     # ---------------------------------------------------------------- impl-level probe: execution
     prng = common.rng_for(chk.seed, 'C06/probe')
@@ -861,7 +959,33 @@ def run(chk):
     for c in kf_cases():
         ast = parse(c['text'])
         if ast is not None:
-            P.check(c, ast)
+            P.check(c, ast, (c['dialect'],) if c.get('dialect') else ('sqlite',))
+    # (a') chains of two explicit joins over three tables: every pair of spellings
+    for s1 in spellings:
+        for s2 in spellings:
+            text = 'SELECT t.a, u.c, t2.b FROM t %s u ON t.a = u.a %s t AS t2 ON u.c = t2.b' % (s1, s2)
+            ast = parse(text)
+            if ast is not None:
+                P.check(dict(kind='select', text=text, feats=['join-chain']), ast)
+    # (b') CREATE TABLE: every column-constraint shape the grammar has, alone and next to a second column, with and
+    #      without a table-level key; judged by the created constraints and by a NULL / duplicate carrying workload
+    cons = ('', ' NULL', ' NOT NULL', ' PRIMARY KEY', ' PRIMARY KEY NOT NULL', ' PRIMARY KEY NULL')
+    ddl = []
+    for ty in ('INT', 'TEXT', 'VARCHAR(10)'):
+        for c1 in cons:
+            ddl.append('CREATE TABLE w (p %s%s)' % (ty, c1))
+            for c2 in cons[:3]:
+                ddl.append('CREATE TABLE w (q FLOAT%s, p %s%s)' % (c2, ty, c1))
+                if 'PRIMARY' not in c1:
+                    ddl.append('CREATE TABLE w (p %s%s, q INTEGER%s, PRIMARY KEY (%s))' % (ty, c1, c2, 'p' if c2 else 'q, p'))
+    ddl += ['CREATE TABLE IF NOT EXISTS w (p INT NOT NULL)', 'CREATE TABLE IF NOT EXISTS t (p INT NOT NULL)']
+    for text in ddl:
+        ast = parse(text)
+        if ast is None:
+            pdist['unparsed:ddl'] += 1
+            continue
+        pdist['stmt:ddl-shape'] += 1
+        P.check(dict(kind='dml', text=text, feats=['ddl-shape']), ast, ('sqlite', 'mysql', 'postgres'))
     # (c) generated statements
     for i in range(n_stmt):
         c = g.statement()
